@@ -95,4 +95,43 @@ theorem projection_removes_components (v : ℕ → E) (w : E) (r : ℕ)
     ⟪v i, w - ∑ k ∈ range r, ⟪v k, w⟫ • v k⟫ = 0 := by
   rw [inner_sub_right, coeff_of_orthonormal_sum v (fun k => ⟪v k, w⟫) r horth i hi, sub_self]
 
+/-- (isometry_of_orthonormal_columns) `x ↦ ∑ k < m, x k • v k` (= `V @ x` for the matrix with columns `v k`) preserves inner
+products when the `v k` are orthonormal: this is how the clause `vectors_orthonormal` of `lanczos_iteration` is used by its callers -/
+theorem isometry_of_orthonormal_columns (v : ℕ → E) (a b : ℕ → ℂ) (m : ℕ)
+    (horth : ∀ p q, p < m → q < m → ⟪v p, v q⟫ = if p = q then 1 else 0) :
+    ⟪∑ k ∈ range m, a k • v k, ∑ l ∈ range m, b l • v l⟫ = ∑ k ∈ range m, (starRingEnd ℂ) (a k) * b k := by
+  rw [sum_inner]
+  apply sum_congr rfl
+  intro k hk
+  rw [inner_smul_left, coeff_of_orthonormal_sum v b m horth k (mem_range.mp hk)]
+
+/-- (projected_map_operator_form) for a linear map `A` with `H k l = ip (v k) (A (v l))`:
+    `ip (V a) (A (V b)) = ∑ k l, conj (a k) * H k l * b l`, i.e. the inner product of `a` with `H b` -/
+theorem projected_map_operator_form (A : E →ₗ[ℂ] E) (v : ℕ → E) (a b : ℕ → ℂ) (m : ℕ) :
+    ⟪∑ k ∈ range m, a k • v k, A (∑ l ∈ range m, b l • v l)⟫
+      = ∑ k ∈ range m, ∑ l ∈ range m, (starRingEnd ℂ) (a k) * (⟪v k, A (v l)⟫ * b l) := by
+  rw [map_sum, sum_inner]
+  apply sum_congr rfl
+  intro k _
+  rw [inner_smul_left, inner_sum, mul_sum]
+  apply sum_congr rfl
+  intro l _
+  rw [map_smul, inner_smul_right]
+  ring
+
+/-- (hadamard_constant_modulus) entrywise product with coefficients of constant squared modulus `g` -/
+theorem hadamard_constant_modulus (c x : ℕ → ℂ) (m : ℕ) (g : ℝ) (h : ∀ k, k < m → Complex.normSq (c k) = g) :
+    ∑ k ∈ range m, Complex.normSq (c k * x k) = g * ∑ k ∈ range m, Complex.normSq (x k) := by
+  rw [mul_sum]
+  apply sum_congr rfl
+  intro k hk
+  rw [Complex.normSq_mul, h k (mem_range.mp hk)]
+
+/-- squared modulus of a product and of the complex exponential (vt/zkry.py: _mod2_of, k_exp) -/
+theorem normSq_smul (c z : ℂ) : Complex.normSq (c * z) = Complex.normSq c * Complex.normSq z := Complex.normSq_mul c z
+
+theorem normSq_exp (z : ℂ) : Complex.normSq (Complex.exp z) = Real.exp (2 * z.re) := by
+  rw [Complex.normSq_eq_norm_sq, Complex.norm_exp, sq, ← Real.exp_add]
+  ring_nf
+
 end VT
